@@ -13,7 +13,7 @@ use std::net::{IpAddr, Ipv4Addr, Ipv6Addr};
 //# props: C05 C02 C12 C09 C01
 //# tier: quick
 //# encodes: layer_2::arp::repl
-//# bounds: 28-byte ARP body fully symbolic (hardware/protocol type and sizes, all 65536 operations, all addresses); MAC symbolic; self-IP list absent or {a4,a6} symbolic
+//# bounds: 28-byte ARP body fully symbolic (hardware/protocol type and sizes, all 65536 operations, all addresses); MAC symbolic; self-IP list absent or one symbolic address of the relevant family
 //# assumes: the field-by-field oracle applies to well-formed requests (htype 1, ptype 0x0800, hlen 6, plen 4); for other requests only silence-for-non-requests, scope and no-panic are asserted
 //# out: ARP bodies longer than 28 bytes (trailing bytes are copied verbatim)
 //# cover: arp reply sent
@@ -28,7 +28,6 @@ fn c05_arp() {
     let a4 = any_ip4();
     let mut s_set = HashSet::new();
     s_set.insert(IpAddr::V4(a4));
-    s_set.insert(IpAddr::V6(any_ip6()));
     let s_on: bool = kani::any();
     let mut masscanned = ms_plain([0, 0], MacAddr::from(mac_b));
     if s_on {
